@@ -41,16 +41,33 @@ def pool(ctx):
     if not ctx.replay:
         recs, out, rc = ctx.go_test("coordinator", files, "^TestVerifPoolStress$", env={"VERIF_ROUNDS": ctx.pick(40, 300)},
                                     timeout=900, race=True, label="poolstress-race")
-        race_guard(ctx, out, "pool stress")
+        if race_guard(ctx, out, "pool stress"):
+            rc = 0
         d = ctx.process(recs, out, rc, "TestVerifPoolStress")
         ctx.cov["pool_stress_gets"] = d.get("gets", 0)
+        recs, out, rc = ctx.go_test("coordinator", files, "^TestVerifClientPoolRace$", env={"VERIF_ROUNDS": ctx.pick(30, 300)},
+                                    timeout=900, label="clientpool-race")
+        ctx.process(recs, out, rc, "TestVerifClientPoolRace")
 
 def race_guard(ctx, out, what):
     """The data-race clause is decided by Go's race detector on the drivers (auxiliary to the specification,
-    see DESIGN section 6): a report is a real-code observation and is reported as a violation."""
-    if "WARNING: DATA RACE" in out:
-        i = out.index("WARNING: DATA RACE")
-        ctx.report_mismatch("race:" + what.replace(" ", "-"), out[i:i + 3000], {"test": "RACE", "what": what})
+    see DESIGN section 6).  A report whose stacks touch repository code is a real-code observation and is
+    reported as a violation; a report that only involves harness code is a defect of the harness (exit 2)."""
+    import re
+    blocks = out.split("WARNING: DATA RACE")[1:]
+    for b in blocks:
+        b = b.split("==================")[0]
+        files = re.findall(r"^\s+(/\S+\.go):\d+", b, re.M)
+        # the access stacks are the first two paragraphs; goroutine-creation stacks follow
+        access = b.split("Goroutine ")[0]
+        afiles = re.findall(r"^\s+(/\S+\.go):\d+", access, re.M)
+        repo_files = [f for f in afiles if f.startswith(ctx.repo + "/") and "zz_verif_" not in f and not f.endswith("_test.go")]
+        if not repo_files:
+            raise Infra("data race inside the harness itself (%s):\n%s" % (what, b[:1500]))
+        top = [f for f in afiles if f.startswith(ctx.repo + "/")]
+        sig = "race:" + what.replace(" ", "-") + ":" + os.path.relpath(repo_files[0], ctx.repo)
+        ctx.report_mismatch(sig, "WARNING: DATA RACE" + b[:3000], {"test": "RACE", "what": what})
+    return bool(blocks)
 
 def shard(ctx):
     """Shard/store: visibility under concurrent writers, readers, snapshots, compactions, deletes (race build)."""
@@ -72,7 +89,8 @@ def shard(ctx):
     files = ["tsdb/zz_verif_conc_test.go"]
     recs, out, rc = ctx.go_test("tsdb", files, "^TestVerifConcVisibility$", race=True, timeout=1800, label="visibility-race",
                                 env={"VERIF_TRACE_DIR": tdir, "VERIF_ROUNDS": ctx.pick(4, 24), "VERIF_PERWRITER": ctx.pick(50, 150)})
-    race_guard(ctx, out, "shard visibility")
+    if race_guard(ctx, out, "shard visibility"):
+        rc = 0
     d = ctx.process(recs, out, rc, "TestVerifConcVisibility")
     traces = [r["file"] for r in recs if r.get("k") == "trace"]
     if traces:
@@ -81,7 +99,8 @@ def shard(ctx):
     ctx.cov["visibility_reads"] = d.get("reads", 0)
     recs, out, rc = ctx.go_test("tsdb", files, "^TestVerifConcFieldTypes$", race=True, timeout=1800, label="fieldtypes-race",
                                 env={"VERIF_ROUNDS": ctx.pick(20, 200)})
-    race_guard(ctx, out, "field types")
+    if race_guard(ctx, out, "field types"):
+        rc = 0
     ctx.process(recs, out, rc, "TestVerifConcFieldTypes")
 
 def validate_vis(ctx, sd, files):
@@ -115,7 +134,8 @@ def hh_race(ctx):
     os.makedirs(tdir, exist_ok=True)
     recs, out, rc = ctx.go_test("services/hh", files, "^(TestVerifHHConcurrent|TestVerifHHProcStress)$", race=True, timeout=1800,
                                 label="hh-race", env={"VERIF_TRACE_DIR": tdir, "VERIF_ROUNDS": ctx.pick(12, 100), "VERIF_MAXQW": 100000})
-    race_guard(ctx, out, "hinted handoff")
+    if race_guard(ctx, out, "hinted handoff"):
+        rc = 0
     ctx.process(recs, out, rc, "TestVerifHHConcurrent")
     ctx.process([r for r in recs if r.get("k") != "mismatch"], out, rc, "TestVerifHHProcStress")
 
